@@ -288,6 +288,47 @@ pub unsafe extern "C" fn syscall(num: libc::c_long, a1: libc::c_long, a2: libc::
     raw(num, a1, a2, a3, a4, a5, a6)
 }
 
+/// Seam 5: the process environment. `getenv(3)` as std's `env::var` sees it. Nothing is changed
+/// here; the names a node thread asks for *while executing a job* are recorded, so that the
+/// supervisor learns which environment variables the code under test consults and can re-run
+/// scenarios in worker processes that have those variables set (the environment leg).
+static ENV_READS: std::sync::Mutex<Vec<String>> = std::sync::Mutex::new(Vec::new());
+pub fn take_env_reads() -> Vec<String> {
+    let _rt = crate::rt::RtGuard::enter();
+    let mut g = ENV_READS.lock().unwrap_or_else(|e| e.into_inner());
+    let mut v = std::mem::take(&mut *g);
+    v.sort();
+    v.dedup();
+    v
+}
+#[no_mangle]
+pub unsafe extern "C" fn getenv(name: *const libc::c_char) -> *mut libc::c_char {
+    static REAL: std::sync::atomic::AtomicUsize = std::sync::atomic::AtomicUsize::new(0);
+    let mut f = REAL.load(Ordering::Relaxed);
+    if f == 0 {
+        f = libc::dlsym(libc::RTLD_NEXT, c"getenv".as_ptr()) as usize;
+        REAL.store(f, Ordering::Relaxed);
+    }
+    if f == 0 {
+        return std::ptr::null_mut();
+    }
+    if !name.is_null() && NODE.try_with(|n| n.get()).unwrap_or(-1) >= 0 && crate::rt::in_job() {
+        let _rt = crate::rt::RtGuard::enter();
+        if let Ok(s) = std::ffi::CStr::from_ptr(name).to_str() {
+            // std itself looks these up (panic reporting, thread stack size)
+            if !matches!(s, "RUST_BACKTRACE" | "RUST_LIB_BACKTRACE" | "RUST_MIN_STACK") {
+                if let Ok(mut g) = ENV_READS.lock() {
+                    if g.len() < 64 {
+                        g.push(s.to_string());
+                    }
+                }
+            }
+        }
+    }
+    let real: unsafe extern "C" fn(*const libc::c_char) -> *mut libc::c_char = std::mem::transmute(f);
+    real(name)
+}
+
 /// Seam 1: the wall clock.
 #[no_mangle]
 pub unsafe extern "C" fn clock_gettime(clk: libc::clockid_t, ts: *mut libc::timespec) -> libc::c_int {
